@@ -134,6 +134,16 @@ Theorem c03_history_independent : forall ops,
 Proof. intro ops. split; [apply history_independent|apply hist_verdict]. Qed.
 Print Assumptions c03_history_independent.
 
+(* ---- path variables vs. everything else the chain puts into the request context ---- *)
+(* the router attaches the bound variables under pathvar's own typed key; jwt claims (WithJwt /
+   WithJwtTransition) are attached afterwards under plain string keys.  For ANY claim names and
+   values - names equal to a ':name', to "pathVars", values that are themselves map[string]string -
+   pathvar.Vars in the handler is exactly what the router bound. *)
+Theorem c03_vars_survive_context : forall ps claims c,
+  vars_of (add_claims claims (serve_ctx ps c)) = match ps with [] => vars_of c | _ => Some ps end.
+Proof. exact vars_survive. Qed.
+Print Assumptions c03_vars_survive_context.
+
 (* ---- non-vacuity ---- *)
 Definition b (s : string) : list N := map (fun a => N.of_nat (Ascii.nat_of_ascii a)) (list_ascii_of_string s).
 Definition ex_regs : list reg :=
@@ -207,3 +217,11 @@ Example c03_engine_multi_mount :
   route_req (fst (engine_register gs)) "GET" (b "/v2/v1/a/7") = NotFound /\
   route_req (fst (engine_register gs)) "GET" (b "/a/7") = NotFound.
 Proof. vm_compute. repeat split; reflexivity. Qed.
+
+Example c03_claims_example :
+  let ps : params := [(b "x", b "7")] in
+  vars_of (add_claims [(b "x", VOther 1); (b "pathVars", VParams [(b "x", b "evil")]); (b "pathVars", VOther 2)]%nat
+                      (serve_ctx ps [])) = Some ps /\
+  (* what a string-keyed variable map would do instead: the claim wins *)
+  ctx_value (KStr (b "pathVars")) (add_claims [(b "pathVars", VOther 2)]%nat [(KStr (b "pathVars"), VParams ps)]) = Some (VOther 2%nat).
+Proof. vm_compute. split; reflexivity. Qed.
